@@ -62,22 +62,43 @@ EncOnly ==
   (fin /\ Objs # {} /\ \A o \in Objs : Ob(o).kind \in C03Kinds /\ Ob(o).exps = <<>>) =>
      \A t \in 1..Len(Rec[s].tabs) : Rec[s].tabs[t].ndec = 0
 
+(* hard form: TLC reports an invariant violation with its counterexample (used for single scenarios) *)
 Viol(id, ok) == ok \/ (PrintT(<<"VIOL", id, Rec[s].id, s, l - 1>>) /\ FALSE)
+(* soft form for bulk validation: the violated state is reported and the run goes on, so that every  *)
+(* violating scenario of a large trace file is found in one pass without a counterexample dump each  *)
+Note(id, ok) == ok \/ PrintT(<<"VIOL", id, Rec[s].id, s, l - 1>>)
 I01 == Viol("C01", C01)
+J01 == Note("C01", C01)
 I02 == Viol("C02", C02)
+J02 == Note("C02", C02)
 I03 == Viol("C03", C03 /\ EncOnly)
+J03 == Note("C03", C03 /\ EncOnly)
 I04 == Viol("C04", C04)
+J04 == Note("C04", C04)
 I05 == Viol("C05", C05)
+J05 == Note("C05", C05)
 I06 == Viol("C06", C06)
+J06 == Note("C06", C06)
 I07 == Viol("C07", C07)
+J07 == Note("C07", C07)
 I08 == Viol("C08", C08)
+J08 == Note("C08", C08)
 I09 == Viol("C09", C09)
+J09 == Note("C09", C09)
 I10 == Viol("C10", C10)
+J10 == Note("C10", C10)
 I11 == Viol("C11", C11)
+J11 == Note("C11", C11)
 I12 == Viol("C12", C12)
+J12 == Note("C12", C12)
 I13 == Viol("C13", C13)
+J13 == Note("C13", C13)
 I14 == Viol("C14", C14)
+J14 == Note("C14", C14)
 I15 == Viol("C15", C15)
+J15 == Note("C15", C15)
 I16 == Viol("C16", C16)
+J16 == Note("C16", C16)
 I17 == Viol("C17", C17)
+J17 == Note("C17", C17)
 =============================================================================
